@@ -44,6 +44,10 @@ def build(case):
     df, spec = gen_psms([base[i % len(base)] for i in range(72)], offset=case["offset"], label_enc=case["enc"])
     if case["lower"]:
         df["f_key"] = -df["f_key"]  # lower is better; still pairwise distinct
+    if case.get("uint"):
+        # an unsigned integer rank, 0 = best (lower is better): only Parquet keeps the unsigned dtype
+        order = np.argsort(np.argsort(-np.abs(df["f_key"].values)))
+        df["f_key"] = order.astype("uint16")
     if case.get("mixed"):
         # a second, much weaker feature pointing the other way: higher is better and it accepts a handful of targets
         # (the first ten high targets get values above everything else), while the best single feature is f_key
@@ -80,6 +84,19 @@ def check_case(case, acc):
         df, spec = build(case)
         labels = genuine(df, case["enc"])
         path = work / ("in.pin" if case["fmt"] == "pin" else "in.parquet")
+        if case.get("history"):
+            # an earlier analysis of ANOTHER export under the same path (same rows, decoy flags mostly lost): whatever
+            # mokapot remembers about that file must not leak into this analysis
+            prev = df.copy()
+            tgt = True if case["enc"] == "bool" else 1
+            keep = [i for i in range(len(prev)) if not labels[i]][:2]
+            prev["Label"] = [prev["Label"].iloc[i] if (labels[i] or i in keep) else tgt for i in range(len(prev))]
+            try:
+                ds0 = make_dataset(prev, path, features=["f_key", "f2"], spectrum=spec)
+                mokapot.brew([ds0], model=make_model(case["est"], first_only=True, override=case["override"], train_fdr=FDR),
+                             test_fdr=FDR, folds=3, max_workers=1, rng=1)
+            except Exception:
+                pass
         ds = make_dataset(df, path, features=["f_key", "f2"], spectrum=spec)
         train_fdr, FDR = FDRS[case.get("fdr", "eq")]
         model = make_model(case["est"], first_only=True, override=case["override"], train_fdr=train_fdr)
@@ -212,6 +229,11 @@ def run(ctx):
         if fdr == "eq" and not mixed:
             continue
         cases.append(dict(mults=list(mv), offset=off, enc="pm1", lower=lower, est=est, fmt="pin", override=False, fdr=fdr, mixed=mixed))
+    # unsigned integer lower-is-better feature (Parquet) and re-analysis of a re-exported file under the same path
+    for mv, off, est in itertools.product(mvs, offsets, EST):
+        cases.append(dict(mults=list(mv), offset=off, enc="pm1", lower=True, est=est, fmt="parquet", override=False, uint=True))
+        for fmt in ("pin", "parquet"):
+            cases.append(dict(mults=list(mv), offset=off, enc="pm1", lower=False, est=est, fmt=fmt, override=False, history=True))
     cases = ctx.rotate(cases)
     items = [cases[i:i + 10] for i in range(0, len(cases), 10)]
     ctx.seed = 0
